@@ -78,6 +78,100 @@ func runC15(c *Check) {
 	c15Bus(c, P, c.P.Method("components/cqrs", "EventBus", "Publish"), "GeneratePublishTopic", []string{"OnPublish"})
 	c15NameKey(c, P)
 	c15Ctx(c, P)
+	c15GenericHandlers(c, P)
+}
+
+// c15GenericHandlers: the handler adapters built by NewCommandHandler /
+// NewEventHandler / NewGroupEventHandler hand out a fresh value per message and
+// pass exactly the unmarshaled value and context to the user's function.
+func c15GenericHandlers(c *Check, P string) {
+	for _, spec := range []struct{ ctor, newM string }{{"NewCommandHandler", "NewCommand"}, {"NewEventHandler", "NewEvent"}, {"NewGroupEventHandler", "NewEvent"}} {
+		ctor := c.P.Func("components/cqrs", spec.ctor)
+		if !c.Use(P+".O8", ctor, "cqrs."+spec.ctor) {
+			continue
+		}
+		var T *types.Named
+		for _, r := range Returns(ctor) {
+			for _, o := range Origins(r.Results[0]) {
+				if mi, ok := o.(*ssa.MakeInterface); ok {
+					T = NamedOf(mi.X.Type())
+				}
+			}
+		}
+		if !c.Floor(P+".O8", spec.ctor+": dynamic type of the returned handler", b2i(T != nil), 1) {
+			continue
+		}
+		T = T.Origin()
+		nm, hd, hn := c.P.MethodOf(T, spec.newM), c.P.MethodOf(T, "Handle"), c.P.MethodOf(T, "HandlerName")
+		if !c.Use(P+".O8", nm, spec.ctor+"."+spec.newM) || !c.Use(P+".O8", hd, spec.ctor+".Handle") || !c.Use(P+".O8", hn, spec.ctor+".HandlerName") {
+			continue
+		}
+		for r, vals := range ReturnValues(nm, 0) {
+			ok := len(vals) > 0
+			for _, v := range vals {
+				mi, isMI := v.(*ssa.MakeInterface)
+				if !isMI {
+					ok = false
+					continue
+				}
+				al, isAl := firstOrigin(mi.X).(*ssa.Alloc)
+				if !isAl || !al.Heap || al.Parent() != nm {
+					ok = false
+				}
+			}
+			c.Report(ok, P+".O8", "FRESH-VALUE-PER-MESSAGE", nm, r.Pos(), spec.ctor+"."+spec.newM, "every call hands out a newly allocated value (concurrent or successive messages never share it)")
+		}
+		var ucalls []ssa.CallInstruction
+		for _, cl := range CallsIn(hd) {
+			if !cl.Common().IsInvoke() && CalleeFn(cl.Common()) == nil && LoadedField(firstOrigin(cl.Common().Value)) != nil {
+				ucalls = append(ucalls, cl)
+			}
+		}
+		if c.Floor(P+".O8", spec.ctor+".Handle: call of the user's function", len(ucalls), 1) {
+			u := ucalls[0]
+			okArgs := len(u.Common().Args) == 2 && FromParam(hd.Params[1])(u.Common().Args[0])
+			if okArgs {
+				ta, isTA := firstOrigin(u.Common().Args[1]).(*ssa.TypeAssert)
+				okArgs = isTA && FromParam(hd.Params[2])(ta.X)
+			}
+			c.Report(okArgs && len(ucalls) == 1 && !InLoop(u), P+".O8", "HANDLE-PASSES-VALUE", hd, u.Pos(), spec.ctor+".Handle", "the user's function is called once with the given context and the given (type-asserted) value")
+			for r, vals := range ReturnValues(hd, 0) {
+				ok := len(vals) == 1 && IsResultOf(vals[0], u, 0)
+				c.Report(ok, P+".O8", "HANDLE-RETURNS-ERROR", hd, r.Pos(), spec.ctor+".Handle", "the user's error is returned unchanged")
+			}
+			// the function field is the constructor's function parameter
+			ff := LoadedField(firstOrigin(u.Common().Value))
+			okF := false
+			for _, prm := range ctor.Params {
+				if _, isSig := prm.Type().Underlying().(*types.Signature); isSig {
+					for _, f := range FieldsStoringParam(ctor, prm) {
+						if f.Name() == ff.Name() || f == ff { // same field of the generic struct (instantiated vs. generic view)
+							okF = true
+						}
+					}
+				}
+			}
+			c.Report(okF, P+".O8", "HANDLE-USER-FUNCTION", ctor, ctor.Pos(), spec.ctor, "the called function is the one given to the constructor")
+		}
+		okN := false
+		for _, vals := range ReturnValues(hn, 0) {
+			for _, v := range vals {
+				if f := LoadedField(v); f != nil {
+					for _, prm := range ParamsOfType(ctor, "string") {
+						for _, g := range FieldsStoringParam(ctor, prm) {
+							if g.Name() == f.Name() {
+								okN = true
+							}
+						}
+					}
+				}
+			}
+		}
+		if len(ParamsOfType(ctor, "string")) == 0 {
+			continue // group handlers have no name of their own
+		}
+		c.Report(okN, P+".O8", "HANDLER-NAME", hn, hn.Pos(), spec.ctor+".HandlerName", "HandlerName returns the name given to the constructor")
+	}
 }
 
 func c15Processor(c *Check, P string, outer, C *ssa.Function, kind string) {
